@@ -106,12 +106,163 @@ def enum_exh(tier):
     return cases
 
 
+# ------------------------------------------------------------------------------------ packet elements
+
+def st_packet(tier):
+    from checks import C16
+
+    @st.composite
+    def case(draw):
+        kind = draw(st.sampled_from(["packetizer", "depacketizer", "fifo", "arbiter", "arbiter", "dispatcher"]))
+        c = {"kind": kind, "cs": draw(bench.st_schedule()), "g": draw(st.one_of(st.none(), st.integers(0, 2 ** 16)))}
+        if kind in ("packetizer", "depacketizer"):
+            c["dw"] = draw(st.sampled_from([8, 16, 32, 64]))
+            c["hdr"] = C16.st_header(draw, c["dw"])
+            c["pk"] = C16.st_packets(draw, c["hdr"], c["dw"], npk_max=3, beats_max=6)
+            c["ps"] = draw(bench.st_schedule())
+        elif kind == "fifo":
+            c.update({"depth": draw(st.sampled_from([2, 4, 8])), "buffered": draw(st.booleans()), "maxlen": draw(st.integers(1, 2))})
+        else:
+            c.update({"n": draw(st.integers(2, 4)), "lens": [draw(st.integers(1, 3)) for _ in range(4)],
+                      "gaps": [draw(st.sampled_from([0, 0, 0, 1])) for _ in range(4)], "one_hot": draw(st.booleans())})
+        return c
+    return case()
+
+
+def _hold_masked(trace, nvalid_bytes_of_last, B):
+    """trace rows: (valid, ready, last, data).  Hold rule with the bytes of a final word beyond the packet masked."""
+    prev = None
+    for c, (valid, ready, last, data) in enumerate(trace):
+        mask = (1 << (8 * B)) - 1
+        if last and nvalid_bytes_of_last:
+            mask = (1 << (8 * nvalid_bytes_of_last)) - 1
+        cur = (last, data & mask)
+        if prev is not None:
+            if not valid:
+                return c, "valid withdrawn before ready"
+            pl, pd = prev
+            if pl != last or (pd & mask) != (data & mask):
+                return c, "token changed while stalled: last %d->%d data %#x->%#x" % (pl, last, pd, data & mask)
+        prev = cur if (valid and not ready) else None
+    return None
+
+
+def run_packet(case):
+    from checks import C16
+    from litex.soc.interconnect import packet, stream
+    kind = case["kind"]
+    cls = ["packet:" + kind]
+    if kind in ("packetizer", "depacketizer"):
+        hdr, with_par, plain = C16._descs(case)
+        B = case["dw"] // 8
+        try:
+            dut = packet.Packetizer(with_par, plain, hdr) if kind == "packetizer" else packet.Depacketizer(plain, with_par, hdr)
+        except (ValueError, AssertionError, TypeError, IndexError) as ex:
+            return skip("constructor rejected the header")
+        if kind == "packetizer":
+            toks = C16._ptoks(case)
+        else:
+            toks = []
+            for k, p in enumerate(case["pk"]):
+                ws = C16._ref_words(case, p, junk=k * 77)
+                for i, (w, nv) in enumerate(ws):
+                    toks.append(((w,), (), int(i == 0), int(i == len(ws) - 1)))
+        n = len(toks)
+        main = 8 * n + 60
+        prod = bench.Producer(dut.sink, toks, case["ps"], garbage_seed=case["g"], until=main)
+        cons = bench.Consumer(dut.source, case["cs"], until=main, check_hold=False)
+        probe = bench.Probe([dut.source.valid, dut.source.ready, dut.source.last, dut.source.data])
+        cyc = bench.run(dut, [prod, cons, probe], main + 10 * n + 200, stop=lambda t: t > main and prod.done() and t > main + 60)
+        leftover = case["hdr"]["length"] % B
+        v = _hold_masked(probe.trace, leftover if kind == "packetizer" else 0, B)
+        if v:
+            return bad("hold", "%s dw=%d header length %d: cycle %d: %s" % (kind, case["dw"], case["hdr"]["length"], v[0], v[1]),
+                       key="hold:packet-" + kind, cls=cls, cycles=cyc)
+        if not prod.done():
+            return bad("progress", "%s dw=%d header %r: %d of %d beats accepted after a cooperative phase" % (kind, case["dw"], case["hdr"], len(prod.sent), n),
+                       key="stall:packet-" + kind, cls=cls, cycles=cyc)
+        return ok(nt=cons.max_stall >= 2 and len(case["pk"]) >= 2, cls=cls, cycles=cyc)
+    desc = stream.EndpointDescription([("data", 8), ("src", 4), ("seq", 8)])
+    T = 260
+    if kind == "fifo":
+        dut = packet.PacketFIFO(desc, case["depth"], buffered=case["buffered"])
+        L = case["maxlen"]
+
+        def endless(i):
+            k = i % L
+            return ((i & 255, 0, (i // L) & 255), (), int(k == 0), int(k == L - 1))
+        prod = bench.Producer(dut.sink, [], ["const", 1], endless=endless)
+        cons = bench.Consumer(dut.source, case["cs"], until=60)
+        cyc = bench.run(dut, [prod, cons], T)
+        if cons.hold_violations:
+            return bad("hold", "PacketFIFO(depth=%d): %s" % (case["depth"], cons.hold_violations[0][1]), key="hold:packet-fifo", cls=cls)
+        ev = sorted(c for c, _ in cons.got if c >= 60)
+        worst = max([b - a for a, b in zip([60] + ev, ev + [T - 2])] or [T])
+        if worst > 4 * case["depth"] + 16:
+            return bad("progress", "PacketFIFO(depth=%d, buffered=%r): no output handshake for %d cooperative cycles" % (case["depth"], case["buffered"], worst),
+                       key="stall:packet-fifo", cls=cls, cycles=cyc)
+        return ok(nt=len(cons.got) >= 8, cls=cls, cycles=cyc)
+    n = case["n"]
+    if kind == "arbiter":
+        masters = [stream.Endpoint(desc) for _ in range(n)]
+        slave = stream.Endpoint(desc)
+        dut = packet.Arbiter(list(masters), slave)
+        prods = []
+        for m in range(n):
+            L = case["lens"][m]
+            gap = case["gaps"][m]
+
+            def endless(i, L=L, m=m):
+                k = i % L
+                return ((i & 255, m, (i // L) & 255), (), int(k == 0), int(k == L - 1))
+            # master m offers its packets back to back (gap 0) or with one idle cycle after each packet
+            sched = ["const", 1] if gap == 0 else ["per", [1] * L + [0], 0]
+            prods.append(bench.Producer(masters[m], [], sched, endless=endless, garbage_seed=None if case["g"] is None else case["g"] + m))
+        cons = bench.Consumer(slave, case["cs"], until=40)
+        cyc = bench.run(dut, prods + [cons], T)
+        if cons.hold_violations:
+            return bad("hold", "packet.Arbiter(%d): %s" % (n, cons.hold_violations[0][1]), key="hold:packet-arbiter", cls=cls)
+        bound = 12 * n * (max(case["lens"][:n]) + 2)
+        for m in range(n):
+            ev = sorted(c for c, t in prods[m].sent if c >= 40)
+            worst = max([b - a for a, b in zip([40] + ev, ev + [T - 2])] or [T])
+            if worst > bound:
+                return bad("starvation", "packet.Arbiter(%d masters, packet lengths %r, gaps %r): master %d got no beat through for %d cycles while "
+                           "the consumer was always ready (bound %d); beats per master %r" % (n, case["lens"][:n], case["gaps"][:n], m, worst, bound,
+                           [len(p.sent) for p in prods]), key="stall:packet-arbiter", cls=cls, cycles=cyc)
+        return ok(nt=True, cls=cls + ["back-to-back" if 0 in case["gaps"][:n] else "gapped"], cycles=cyc)
+    # dispatcher: selector held constant while a token is stalled is the caller's duty -> sel constant per packet here
+    master = stream.Endpoint(desc)
+    slaves = [stream.Endpoint(desc) for _ in range(n)]
+    dut = packet.Dispatcher(master, list(slaves), one_hot=case["one_hot"])
+    L = case["lens"][0]
+
+    def endless(i):
+        k = i % L
+        return ((i & 255, 0, (i // L) & 255), (), int(k == 0), int(k == L - 1))
+    prod = bench.Producer(master, [], ["const", 1], endless=endless)
+    conss = [bench.Consumer(sl, case["cs"], until=40) for sl in slaves]
+    enc = (lambda v: 1 << v) if case["one_hot"] else (lambda v: v)
+    drv = bench.Driver(lambda t: {dut.sel: enc(1 % n)})
+    cyc = bench.run(dut, [prod, drv] + conss, T)
+    for j, co in enumerate(conss):
+        if co.hold_violations:
+            return bad("hold", "packet.Dispatcher(%d): slave %d: %s" % (n, j, co.hold_violations[0][1]), key="hold:packet-dispatcher", cls=cls)
+    ev = sorted(c for c, _ in prod.sent if c >= 40)
+    worst = max([b - a for a, b in zip([40] + ev, ev + [T - 2])] or [T])
+    if worst > 16:
+        return bad("progress", "packet.Dispatcher(%d): no beat accepted for %d cooperative cycles" % (n, worst), key="stall:packet-dispatcher", cls=cls)
+    return ok(nt=True, cls=cls, cycles=cyc)
+
+
 def subchecks():
     return [
         Sub("hold", run_hold, strategy=st_hold, examples=(5000, 150000),
             rule="hold rule on the source endpoint under schedules with long early stalls"),
         Sub("progress", run_progress, strategy=st_progress, examples=(3000, 80000),
             rule="bounded progress in a cooperative phase entered from the state a generated prefix reached"),
+        Sub("packet", run_packet, strategy=st_packet, examples=(1200, 30000),
+            rule="packet elements: hold rule (final-word junk bytes masked) and bounded progress / no starvation under endless back-to-back packets"),
         Sub("exhaustive-hold", run_hold, enum=enum_exh, exhaustive=True, tiers=("thorough",),
             rule="hold rule for ALL producer x consumer schedules of length 8, 16 element configurations"),
     ]
